@@ -1321,3 +1321,113 @@ impl<'r> Gen<'r> {
 pub fn gen_args(rng: &mut Rng, prog: &Program) -> Vec<Val> {
     prog.main().params.iter().map(|p| super::ty::gen_val(rng, &p.ty, &prog.defs)).collect()
 }
+
+// ---------------------------------------------------------------------------------------------
+// for-join programs (C13)
+
+impl<'r> Gen<'r> {
+    /// `pub fn main(a: [(K, PA..); n], b: [(K, PB..); m]) -> (accumulators..)` with one for-join
+    /// loop whose body updates the accumulators (order-sensitive, possibly panicking).
+    pub fn gen_join_program(mut self, n: usize, m: usize) -> Program {
+        let key: Ty = match self.rng.below(6) {
+            0 => Ty::Int(ints::U16),
+            1 => Ty::Int(ints::U32),
+            2 => Ty::Int(ints::U64),
+            3 => Ty::Tuple(vec![Ty::Int(ints::U8), Ty::Int(ints::U8)]),
+            _ => Ty::Int(ints::U8),
+        };
+        let mut side = |g: &mut Self| -> Ty {
+            let k = 1 + g.rng.usize_below(2); // no 1-tuples (not expressible as literals)
+            let mut fields = vec![key.clone()];
+            for _ in 0..k {
+                fields.push(g.gen_prim_ty());
+            }
+            Ty::Tuple(fields)
+        };
+        let ea = side(&mut self);
+        let eb = side(&mut self);
+        let ta = Ty::Array(Box::new(ea.clone()), n);
+        let tb = Ty::Array(Box::new(eb.clone()), m);
+        self.scopes.push(vec![]);
+        self.declare("a", ta.clone(), false);
+        self.declare("b", tb.clone(), false);
+        let mut stmts = vec![];
+        // accumulators
+        let n_acc = 1 + self.rng.usize_below(3);
+        let mut accs = vec![];
+        for i in 0..n_acc {
+            let ty = if i == 0 { Ty::Int(self.gen_int_ty()) } else { self.gen_ty(1) };
+            let name = format!("acc{i}");
+            let init = self.construct(&ty, 0);
+            self.declare(&name, ty.clone(), true);
+            stmts.push(Stmt::new(StmtKind::LetMut(name.clone(), ty.clone(), init, true)));
+            accs.push((name, ty));
+        }
+        // the loop
+        self.scopes.push(vec![]);
+        let pty = Ty::Tuple(vec![ea.clone(), eb.clone()]);
+        let whole = self.rng.chance(1, 2);
+        let pat = if whole {
+            self.declare("jr", pty.clone(), false);
+            Pat::Bind("jr".into())
+        } else {
+            self.gen_irrefutable(&pty, 2)
+        };
+        let saved_mult = self.mult;
+        self.mult = (n + m) as u64;
+        let nb = 1 + self.rng.usize_below(3);
+        let mut body = vec![];
+        if whole {
+            // an order- and key-sensitive update of the first accumulator:
+            //   acc0 = ((acc0 ^ (key as T)) << 1) ^ (other side's key as T)
+            let (acc_name, acc_ty) = accs[0].clone();
+            let key_of = |side: usize| -> Expr {
+                let pair = e(ExprKind::Var("jr".into()), pty.clone());
+                let elem_ty = if side == 0 { ea.clone() } else { eb.clone() };
+                let el = e(ExprKind::TupleField(Box::new(pair), side), elem_ty);
+                let mut k = e(ExprKind::TupleField(Box::new(el), 0), key.clone());
+                if let Ty::Tuple(ts) = &key {
+                    k = e(ExprKind::TupleField(Box::new(k), 1), ts[1].clone());
+                }
+                e(ExprKind::Cast(Box::new(k)), acc_ty.clone())
+            };
+            let acc = e(ExprKind::Var(acc_name.clone()), acc_ty.clone());
+            let x1 = e(ExprKind::Bin(BinOp::BitXor, Box::new(acc), Box::new(key_of(0))), acc_ty.clone());
+            let sh = e(ExprKind::Bin(BinOp::Shl, Box::new(x1), Box::new(lit_int(ints::U8, 1))), acc_ty.clone());
+            let x2 = e(ExprKind::Bin(BinOp::BitXor, Box::new(sh), Box::new(key_of(1))), acc_ty.clone());
+            body.push(Stmt::new(StmtKind::Assign { var: acc_name, accs: vec![], op: None, value: x2, target_ty: acc_ty }));
+        }
+        for _ in 0..nb {
+            let s = if self.rng.chance(3, 4) { self.gen_assign(2) } else { self.gen_stmt(2) };
+            if let Some(s) = s {
+                body.push(s);
+            }
+        }
+        self.mult = saved_mult;
+        self.scopes.pop();
+        self.note("for-join");
+        stmts.push(Stmt::new(StmtKind::ForJoin {
+            pat,
+            a: e(ExprKind::Var("a".into()), ta.clone()),
+            b: e(ExprKind::Var("b".into()), tb.clone()),
+            body,
+        }));
+        let items: Vec<Expr> = accs.iter().map(|(n, t)| e(ExprKind::Var(n.clone()), t.clone())).collect();
+        let (tail, ret) = if items.len() == 1 {
+            let t = items[0].ty.clone();
+            (items.into_iter().next().unwrap(), t)
+        } else {
+            let tys: Vec<Ty> = items.iter().map(|i| i.ty.clone()).collect();
+            (e(ExprKind::TupleLit(items), Ty::Tuple(tys.clone())), Ty::Tuple(tys))
+        };
+        self.scopes.pop();
+        let main = FnDef {
+            name: "main".into(),
+            is_pub: true,
+            params: vec![Param { name: "a".into(), ty: ta, mutable: false }, Param { name: "b".into(), ty: tb, mutable: false }],
+            ret,
+            body: Block { stmts, tail: Some(Box::new(tail)) },
+        };
+        Program { defs: self.defs, fns: vec![main] }
+    }
+}
